@@ -280,6 +280,11 @@ def rate_campaign(sess, rng, count, kinds=KINDS, max_teams=8, max_players=8, sim
             if len(ps) >= 2 and eff_tau > 0:
                 a, b = rng.sample(ps, 2)
                 b.mu, b.sigma = a.mu, math.sqrt(a.sigma * a.sigma + eff_tau * eff_tau)
+        if rng.random() < 0.08:   # round-number relations among the sigmas of one team
+            tv = [[(p.mu, p.sigma) for p in t] for t in teams]
+            sigma_pattern(rng, tv)
+            if all(sg > 0 for t in tv for (_m, sg) in t):
+                teams = make_teams(mh, tv, rng)
         if rng.random() < 0.12:   # value-identical line-ups (different objects)
             k = rng.randrange(len(teams))
             for i in range(len(teams)):
@@ -445,6 +450,34 @@ def coincide(rng, vals, tau):
         if len(slots) >= 2:
             (i, j), (k, l) = rng.sample(slots, 2)
             vals[k][l] = vals[i][j]
+    elif r < 0.52:
+        sigma_pattern(rng, vals)
+
+
+SIGMA_PATTERNS = {2: [(3, 4), (1, 1), (5, 12)], 3: [(5, 1, 7), (1, 1, 1), (13, 7, 17), (2, 3, 6), (5, 7, 1)],
+                  4: [(5, 5, 1, 7), (1, 1, 1, 1), (1, 7, 5, 5)], 5: [(5, 1, 7, 5, 5)]}
+
+
+def sigma_pattern(rng, vals, beta=None):
+    """Exact arithmetic relations among the sigmas of ONE team (in place): a member whose variance is the team's mean variance
+    (5, 1, 7: 2*25 = 1 + 49), a team variance that is a perfect square (3, 4 -> 25), all equal - the coincidences of ratings
+    kept as round numbers, where a share times the team size is exactly 1, or a root comes out exact.  Sizes 2-5."""
+    cands = [i for i in range(len(vals)) if len(vals[i]) in SIGMA_PATTERNS]
+    if not cands:
+        i = rng.randrange(len(vals))
+        vals[i] = [vals[i][0]] * 3 if len(vals[i]) == 1 else vals[i]
+        cands = [i] if len(vals[i]) in SIGMA_PATTERNS else []
+        if not cands:
+            return
+    i = rng.choice(cands)
+    pat = list(rng.choice(SIGMA_PATTERNS[len(vals[i])]))
+    if rng.random() < 0.5:
+        rng.shuffle(pat)
+    top = max(sg for (_mu, sg) in vals[i])
+    k = 1.0
+    while max(pat) * k > max(top, 1e-12) and k > 2.0 ** -40:      # a power of two keeps every square exact
+        k /= 2.0
+    vals[i] = [(mu, p * k) for (mu, _sg), p in zip(vals[i], pat)]
 
 
 def random_vals(rng, shape, beta, tau_pos=False):
@@ -1360,9 +1393,15 @@ def malformed_campaign(sess, rng, count, kinds=KINDS, ops=("rate", "win", "draw"
                         sess.predict(op, mh, t2)
             # structural: too few teams, an empty team
             for variant in ["one_team", "no_team", "empty_team", "empty_first", "empty_then_tuple", "tuple_then_empty", "empty_then_none_mid",
-                            "empty_then_foreign", "foreign_then_empty"]:
+                            "empty_then_foreign", "foreign_then_empty", "flat", "flat_tuple", "all_tuples", "all_foreign", "all_none", "all_numbers",
+                            "deeper", "dict_of_teams", "generator"]:
                 mh, fm, teams = fresh()
-                t2 = {"one_team": teams[:1], "no_team": [], "empty_team": teams[:-1] + [[]], "empty_first": [[]] + teams[1:],
+                flat = [p for t in teams for p in t]
+                t2 = {"flat": flat, "flat_tuple": tuple(flat), "all_tuples": [tuple(t) for t in teams],
+                      "all_foreign": [[fm.m.rating(20.0 + i, 5.0)] for i in range(len(teams))], "all_none": [None] * len(teams),
+                      "all_numbers": [float(i) for i in range(len(teams))], "deeper": [[t] for t in teams],
+                      "dict_of_teams": {i: t for i, t in enumerate(teams)}, "generator": (t for t in teams),
+                      "one_team": teams[:1], "no_team": [], "empty_team": teams[:-1] + [[]], "empty_first": [[]] + teams[1:],
                       "empty_then_tuple": [[], tuple(teams[1])] + teams[2:], "tuple_then_empty": [tuple(teams[0]), []] + teams[2:],
                       "empty_then_none_mid": [teams[0], [], None] + teams[1:],
                       "empty_then_foreign": [[], [fm.m.rating(20.0, 5.0)]] + teams[2:],
@@ -1794,6 +1833,16 @@ def thread_executions_fine(sess, rng, count, thread_log, kinds=("TMF", "TMP", "P
             if rng.random() < 0.3:
                 kw["limit_sigma"] = True
             calls.append({"op": "rate", "vals": vals, "kw": kw})
+        if ci % 4 == 3:
+            # both callers pass one and the same outcome list object (not yet in any canonical form: gaps, floats, unsorted)
+            n0 = len(calls[0]["vals"])
+            shared = [float(v) for v in rng.sample([7, 3, 11, 5][:max(n0, 2)] + [9], n0)]
+            sel = "ranks" if ci % 8 == 3 else "scores"
+            calls[1]["vals"] = calls[1]["vals"][:n0] if len(calls[1]["vals"]) >= n0 else calls[1]["vals"] + calls[0]["vals"][len(calls[1]["vals"]):n0]
+            for c in calls:
+                c["kw"] = {k: v for k, v in c["kw"].items() if k not in ("ranks", "scores")}
+                c["kw"][sel] = list(shared)
+            calls[1]["share"] = 0
         # how many yield points does thread 0 have?  (dry run, thread 0 alone first)
         counter = [0]
         x += 1
